@@ -261,6 +261,16 @@ def handleLine (st : St) (line : String) : IO St := do
         else feedBytes st.bp data
       return { st with bp := r.1, expected := some r.2, feedIdx := st.feedIdx + 1, feedBytes := head == "FB",
                        cnt := { st.cnt with feeds := st.cnt.feeds + 1 } }
+  | "FQ" | "FBQ" =>
+    -- a feed made while the log was quiet: the model recogniser consumes it too, nothing is compared
+    match runRd rdList toks 1 with
+    | .error e => emit st "TIE" "-" s!"bad quiet feed line: {e}"
+    | .ok data =>
+      let r := if head == "FQ" then
+          let r := feed st.bp.parser data
+          ({ st.bp with parser := r.1 }, r.2)
+        else feedBytes st.bp data
+      return { st with bp := r.1, expected := none }
   | "EF" =>
     match st.expected with
     | some (e :: _) =>
@@ -278,6 +288,8 @@ def handleLine (st : St) (line : String) : IO St := do
     | .error e => emit st "TIE" "-" s!"bad U line: {e}"
   | "U8" =>
     return { st with bp := { st.bp with parser := { st.bp.parser with useUtf8 := toks.getD 1 "1" == "1" } } }
+  | "XM" =>
+    emit st "PARSE" "mode_switch" s!"{toks.getD 2 "mode switch"} made {toks.getD 1 "?"} listener call(s): a mode switch is not input (shiftIn / shiftOut / defineCharset must come from the stream only)"
   | "Z" | "X" => return st
   | other => emit st "TIE" "-" s!"unknown log line kind {other}"
 
